@@ -16,7 +16,9 @@ CHECKS = {
  "C06": "The datagram is 2 free bytes plus a tail of symbolic length (0..65505): one query per path covers every length and content; the three accepted lengths are re-run with all bytes free for the unknown-model clause.",
  "C08": "get_state / get_shutter_state / get_breeze_state are executed against a reply whose parsed prefix is fully symbolic plus a tail of symbolic length; every field of the returned object is compared with the reference decoder.",
  "C09": "Every operation is executed with replies of every length 0..101 (all bytes free) and with a symbolic-length tail at each step; the set of outcomes (returned class / exception class / frames written / success flag) is computed over all feasible paths.",
+ "C11": "time_to_hexadecimal_timestamp and its decoder are executed with 4 free digits, a free clock instant and a symbolic row of the tz table per zone; the encoded value must be the epoch second of that local time on the local date of the clock read and decode back to the same text; free ASCII text of 0..6 (8) characters that is not HH:MM must raise.",
  "C12": "Weekday encoders/decoder executed on a symbolic single day, a set with 7 free membership bits, lists/tuples of symbolic days and a symbolic mask; bit-exactness, rejection and the round trip are refuted per path.",
+ "C13": "pretty_next_run is executed per (zone, day set) with symbolic start digits, clock instant and zone row; the text is compared with the earliest-occurrence rule on the LOCAL weekday and minute.",
  "C14": "calc_duration executed on symbolic digits: all 1440 x 1440 pairs per digit shape in one run.",
  "C19": "Device type is a symbolic choice over the enum; constructors of the four classes and both port tables are checked against the statement's own table (finite space, covered completely).",
 }
